@@ -348,6 +348,45 @@ def gen_C01(rng, tier):
                     pr.emit("P.Bytes", v, pr.fresh("o"))
     pr.tag("torsion sweep")
     cases.append(pr)
+    # repeated terms: the SAME pointer (and, as a control, an equal copy) several times in a multi-scalar call, for points
+    # with a torsion component and scalars whose integer sum reaches l (k1 + k2 >= l): [k1]P + [k2]P is not [(k1+k2) mod l]P
+    # unless P has prime order
+    pr = Prog(rng)
+    tors = [t for t in torsion() if t != spec.IDENT]
+    for _ in range(scale(tier, 3, 12)):
+        base = spec.smul(rng.randrange(1, L), spec.B)
+        q = spec.add(base, rng.choice(tors))
+        pq = point_in(pr, rng, q)
+        pq2 = point_in(pr, rng, q, rescale_prob=0)
+        other = point_in(pr, rng)
+        k1 = pr.scalar(L - rng.choice([1, 2, 3, 5, rng.randrange(1, 2**64)]))
+        k2 = pr.scalar(rng.choice([2, 3, 5, 8, L - 1, rng.randrange(2**251, L)]))
+        k3 = pr.scalar(rand_scalar(rng))
+        for opn in ("P.MultiScalarMult", "P.VarTimeMultiScalarMult"):
+            for (xs, qs) in (((k1, k2), (pq, pq)), ((k1, k2), (pq, pq2)), ((k1, k3, k2), (pq, other, pq)),
+                             ((k1, k2, k1, k2), (pq, pq, pq, pq)), ((k2, k2), (pq, pq))):
+                v = pr.point_zero() if rng.random() < 0.6 else point_in(pr, rng)
+                pr.emit(opn, v, len(xs), len(qs), *xs, *qs)
+                pr.emit("P.Bytes", v, pr.fresh("o"))
+        v = pr.point_zero()
+        pr.emit("P.VarTimeDoubleScalarBaseMult", v, k1, pq, k2)
+        pr.emit("P.Bytes", v, pr.fresh("o"))
+    pr.tag("repeated pointers, torsion component, scalar sums >= l")
+    cases.append(pr)
+    # histories of multi-scalar calls with growing and shrinking term counts (scratch kept between calls would show)
+    for _ in range(scale(tier, 2, 10)):
+        pr = Prog(rng)
+        pts = [point_in(pr, rng) for _ in range(6)]
+        scs = [pr.scalar(rand_scalar(rng)) for _ in range(6)]
+        counts = [5, 3, 2, 1, 0, 4, 0, 1] if rng.random() < 0.5 else [rng.choice([0, 1, 2, 3, 5, 6]) for _ in range(8)]
+        for opn in ("P.MultiScalarMult", "P.VarTimeMultiScalarMult"):
+            for n in counts:
+                idx = rng.sample(range(6), n)
+                v = pr.point_zero() if rng.random() < 0.7 else rng.choice(pts)
+                pr.emit(opn, v, n, n, *[scs[i] for i in idx], *[pts[i] for i in idx])
+                pr.emit("P.Bytes", v, pr.fresh("o"))
+        pr.tag("multi-scalar calls with changing term counts")
+        cases.append(pr)
     if tier == "thorough":
         pr = Prog(rng)
         pr.emit("P.NewGenerator", "g")
@@ -373,7 +412,7 @@ def special_pairs(rng):
 
 
 def gen_C02(rng, tier):
-    cases = []
+    cases = gen_C02_reuse(rng, tier)
     for _ in range(scale(tier, 4, 60)):
         for (a, b) in special_pairs(rng):
             pr = Prog(rng)
@@ -389,6 +428,32 @@ def gen_C02(rng, tier):
             pr.emit("P.Bytes", v, o)
             pr.tag(op[2:])
             cases.append(pr)
+    return cases
+
+
+def gen_C02_reuse(rng, tier):
+    """the same variables used as operands, modified in place, and used again (a memo attached to a Point would go stale)"""
+    cases = []
+    for _ in range(scale(tier, 3, 30)):
+        pr = Prog(rng)
+        p = point_in(pr, rng)
+        q = point_in(pr, rng)
+        r = point_in(pr, rng)
+        steps = [("P.Add", "v", p, q), ("P.Negate", q, q), ("P.Add", "v", p, q), ("P.Subtract", "v", p, q), ("P.Negate", q, r),
+                 ("P.Add", "v", p, q), ("P.Subtract", "v", q, p), ("P.MultByCofactor", q, q), ("P.Add", "v", q, p), ("P.Set", q, p),
+                 ("P.Subtract", "v", p, q), ("P.Add", q, q, r), ("P.Add", "v", p, q), ("P.Add", p, p, p), ("P.Subtract", "v", q, p),
+                 ("P.Negate", p, p), ("P.Add", "v", r, p), ("P.Equal", p, q), ("P.Add", "v", p, q)]
+        if rng.random() < 0.5:
+            rng.shuffle(steps)
+        for st in steps:
+            if st[1] == "v":
+                v = pr.point_zero()
+                pr.emit(st[0], v, *st[2:])
+                pr.emit("P.Bytes", v, pr.fresh("o"))
+            else:
+                pr.emit(*st)
+        pr.tag("operands reused after in-place operations")
+        cases.append(pr)
     return cases
 
 
@@ -683,7 +748,7 @@ FE_OPS = ["E.Add", "E.Subtract", "E.Multiply", "E.Negate", "E.Square", "E.Mult32
 
 
 def gen_C09(rng, tier):
-    cases = []
+    cases = gen_C09_sparse(rng, tier)
     for ci in range(scale(tier, 20, 300)):
         pr = Prog(rng)
         es = [pr.elem(limbs=rand_limbs(rng)) for _ in range(3)] + [pr.elem(rand_fe(rng)) for _ in range(2)]
@@ -706,6 +771,50 @@ def gen_C09(rng, tier):
             pr.emit("E.Invert", rng.choice(es), z)
         pr.tag("field op chain on boundary representations")
         cases.append(pr)
+    return cases
+
+
+def sparse_limb_values(rng):
+    """canonical values whose limb vector is sparse: a small number in one limb, zero or a small number in the others
+    (shortcuts keyed on "this limb is 1 / these limbs are 0" are taken for such values and for nothing a random sample contains)"""
+    out = []
+    smalls = [0, 1, 2, 19, 2**32, 2**32 + 1, 2**51 - 1]
+    for i in range(5):
+        for a in (1, 2, 2**32, 2**51 - 1):
+            out.append(a << (51 * i))
+            for j in range(5):
+                if j != i:
+                    out.append(((a << (51 * i)) + (rng.choice(smalls[1:]) << (51 * j))) % P)
+    out.append(1 + (rng.randrange(1, 2**51) << 204))
+    out.append(1 + (1 << 204))
+    out.append((1 << 255) - 20)
+    return out
+
+
+def gen_C09_sparse(rng, tier):
+    cases = []
+    vals = sparse_limb_values(rng)
+    if tier != "thorough":
+        vals = rng.sample(vals, 30) + [1 + (1 << 204), 1 + (rng.randrange(1, 2**51) << 204)]
+    pr = Prog(rng)
+    other = pr.elem(rand_fe(rng))
+    for v in vals:
+        a = pr.elem(v)
+        r = pr.elem(None)
+        for op in ("E.Invert", "E.Square", "E.Negate", "E.Absolute", "E.Pow22523"):
+            pr.emit(op, r, a)
+        pr.emit("E.Multiply", r, a, other)
+        pr.emit("E.Multiply", r, other, a)
+        pr.emit("E.Add", r, a, a)
+        pr.emit("E.Subtract", r, other, a)
+        pr.emit("E.Mult32", r, a, rng.choice([0, 1, 2, 121666, 2**32 - 1]))
+        pr.emit("E.SqrtRatio", r, a, other)
+        pr.emit("E.SqrtRatio", r, other, a)
+        pr.emit("E.Equal", a, other)
+        pr.emit("E.IsNegative", a)
+        pr.emit("E.Bytes", a, pr.fresh("o"))
+    pr.tag("sparse limb vectors through every field operation")
+    cases.append(pr)
     return cases
 
 
@@ -850,6 +959,24 @@ def gen_C11(rng, tier):
             pr.emit(op, v, 3, 3, scs[0], scs[1], scs[0], pts[0], pts[1], pts[0])
             pr.emit(op, pts[1], 2, 2, scs[0], scs[0], pts[1], pts[1])
             pr.tag(f"{op} receiver inside points")
+            cases.append(pr)
+        # many terms, the receiver aliasing a late element (implementations that process terms in batches, or that grow scratch
+        # storage, behave differently past a size boundary)
+        for op in ("P.MultiScalarMult", "P.VarTimeMultiScalarMult"):
+            pr = Prog(rng)
+            n = rng.choice([9, 17, 25, 26, 33, 40, 65, 70]) if tier == "thorough" else rng.choice([25, 33, 70])
+            pts = [point_in(pr, rng, rescale_prob=0.2) for _ in range(n)]
+            scs = [pr.scalar(rand_scalar(rng)) for _ in range(4)]
+            xs = [rng.choice(scs) for _ in range(n)]
+            for k in sorted({0, n // 2, n - 2, n - 1, 24 if n > 24 else 0, 63 if n > 63 else 0, 64 if n > 64 else 0}):
+                cp = pr.point_zero()
+                pr.emit("P.Set", cp, pts[k])
+                w = pr.point_zero()
+                pr.emit(op, w, n, n, *xs, *pts)           # reference call with a fresh receiver
+                pr.emit(op, pts[k], n, n, *xs, *pts)      # receiver is element k
+                pr.emit("P.Equal", w, pts[k])
+                pr.emit("P.Set", pts[k], cp)
+            pr.tag(f"{op} with {n} terms, receiver aliasing a late element")
             cases.append(pr)
         # setters: input slices untouched, bytes outputs
         pr = Prog(rng)
@@ -1145,6 +1272,16 @@ def gen_C15(rng, tier):
             pr.emit(op, v, 0, 0)
             pr.emit(op, v, 2, 0, s, s)
             pr.emit(op, v, 0, 2, g, g)
+        # many terms with the uninitialized point at a late position (a guard that keeps per-position state in a machine word,
+        # or checks only a prefix, misses it); also a slice that is a window into a larger backing array is exercised by the
+        # harness (B.set-style canaries do not apply to pointer slices: the call gets exactly n elements)
+        manyp = [g] * 70
+        manys = [s] * 70
+        for k in (63, 64, 65, 69, 31, 32):
+            qs = list(manyp)
+            qs[k] = z
+            for op in ("P.MultiScalarMult", "P.VarTimeMultiScalarMult"):
+                pr.emit(op, v, 70, 70, *manys, *qs)
         s0 = pr.scalar(0)
         pr.emit("P.ScalarMult", v, s0, z)
         pr.emit("P.VarTimeDoubleScalarBaseMult", v, s0, z, s)
@@ -1254,7 +1391,7 @@ def gen_C17(rng, tier):
         # X25519 public key of k
         k = rng.randbytes(32)
         kb = pr.bytes_(k)
-        s = pr.scalar(None)
+        s = pr.scalar(None) if rng.random() < 0.3 else pr.scalar(rand_scalar(rng))   # a used receiver, mostly
         pr.emit("S.SetBytesWithClamping", s, kb)
         v = pr.point_zero()
         pr.emit("P.ScalarBaseMult", v, s)
